@@ -83,89 +83,101 @@ theorem InvT.include_ {env : Env} {root im : Mod} {a : Stmt} (h : env.includeTar
 /-- A change of the node's own data that touches none of the listed fields. -/
 def StableD (f : EData → EData) : Prop :=
   ∀ d, (f d).node = d.node ∧ (f d).nodeMod = d.nodeMod ∧ (f d).name = d.name ∧ (f d).kind = d.kind ∧
-    (f d).hasDir = d.hasDir ∧ (f d).errors = d.errors ∧ (f d).ns = d.ns ∧ (f d).nodeKw = d.nodeKw
+    (f d).hasDir = d.hasDir ∧ (f d).errors = d.errors ∧ (f d).ns = d.ns ∧ (f d).nodeKw = d.nodeKw ∧
+    (f d).isRpc = d.isRpc
 
-/-- `Evolve a b`: `b` is `a` after some steps of `toEntry`'s directory case. -/
-inductive Evolve : Entry → Entry → Prop
-  | refl (e : Entry) : Evolve e e
-  | trans {a b c : Entry} : Evolve a b → Evolve b c → Evolve a c
-  | withD (e : Entry) (f : EData → EData) : StableD f → Evolve e (e.withD f)
-  | addErrs (e : Entry) (xs : List Err) : Evolve e (e.addErrs xs)
-  | withDir (e : Entry) (c : List Entry) : Evolve e (e.withDir c)
-  | setIO (d : EData) (c i o i' o' : List Entry) : Evolve (.mk d c i o) (.mk { d with isRpc := true } c i' o')
+/-- `Evolve io a b`: `b` is `a` after some steps of `toEntry`'s directory case; `io` says whether
+the `input` / `output` steps (which set the rpc flag) may be among them. -/
+inductive Evolve : Bool → Entry → Entry → Prop
+  | refl (io : Bool) (e : Entry) : Evolve io e e
+  | trans {io : Bool} {a b c : Entry} : Evolve io a b → Evolve io b c → Evolve io a c
+  | withD (io : Bool) (e : Entry) (f : EData → EData) : StableD f → Evolve io e (e.withD f)
+  | addErrs (io : Bool) (e : Entry) (xs : List Err) : Evolve io e (e.addErrs xs)
+  | withDir (io : Bool) (e : Entry) (c : List Entry) : Evolve io e (e.withDir c)
+  | setIO (d : EData) (c i o i' o' : List Entry) : Evolve true (.mk d c i o) (.mk { d with isRpc := true } c i' o')
 
-theorem Evolve.addErr (e : Entry) (x : Err) : Evolve e (e.addErr x) := Evolve.addErrs e [x]
-theorem Evolve.importErrors (e c : Entry) : Evolve e (e.importErrors c) := Evolve.addErrs e _
+theorem Evolve.addErr {io : Bool} (e : Entry) (x : Err) : Evolve io e (e.addErr x) := Evolve.addErrs io e [x]
+theorem Evolve.importErrors {io : Bool} (e c : Entry) : Evolve io e (e.importErrors c) := Evolve.addErrs io e _
 
-theorem Evolve.add (e : Entry) (k : String) (v : Entry) : Evolve e (e.add k v) := by
+theorem Evolve.add {io : Bool} (e : Entry) (k : String) (v : Entry) : Evolve io e (e.add k v) := by
   unfold Entry.add; split
   · exact Evolve.addErr _ _
-  · exact Evolve.withDir _ _
+  · exact Evolve.withDir _ _ _
 
-theorem Evolve.merge (e : Entry) (ns : Option String) (oe : Entry) : Evolve e (e.merge ns oe) := by
+theorem Evolve.merge {io : Bool} (e : Entry) (ns : Option String) (oe : Entry) : Evolve io e (e.merge ns oe) := by
   unfold Entry.merge
-  refine foldl_inv (fun x => Evolve e x) _ _ _ (Evolve.importErrors _ _) ?_
+  refine foldl_inv (fun x => Evolve io e x) _ _ _ (Evolve.importErrors _ _) ?_
   intro b a _ hb
   dsimp only
   split
   · exact hb.trans (Evolve.addErr _ _)
-  · exact hb.trans (Evolve.withDir _ _)
+  · exact hb.trans (Evolve.withDir _ _ _)
 
-theorem Evolve.foldl {α} (g : Entry × TState → α → Entry × TState) (l : List α) (acc : Entry × TState)
-    (h : ∀ acc a, Evolve acc.1 (g acc a).1) : Evolve acc.1 (l.foldl g acc).1 :=
-  foldl_inv (fun x => Evolve acc.1 x.1) g l acc (Evolve.refl _) (fun b a _ hb => hb.trans (h b a))
+theorem Evolve.foldl {io : Bool} {α} (g : Entry × TState → α → Entry × TState) (l : List α) (acc : Entry × TState)
+    (h : ∀ acc a, Evolve io acc.1 (g acc a).1) : Evolve io acc.1 (l.foldl g acc).1 :=
+  foldl_inv (fun x => Evolve io acc.1 x.1) g l acc (Evolve.refl _ _) (fun b a _ hb => hb.trans (h b a))
 
-theorem Evolve.withD_addErrs (e : Entry) (f : EData → EData) (xs : List Err) (hf : StableD f) :
-    Evolve e ((e.withD f).addErrs xs) := (Evolve.withD e f hf).trans (Evolve.addErrs _ _)
+theorem Evolve.withD_addErrs {io : Bool} (e : Entry) (f : EData → EData) (xs : List Err) (hf : StableD f) :
+    Evolve io e ((e.withD f).addErrs xs) := (Evolve.withD io e f hf).trans (Evolve.addErrs _ _ _)
 
-theorem Evolve.withD2_addErrs (e : Entry) (f g : EData → EData) (xs : List Err) (hf : StableD f) (hg : StableD g) :
-    Evolve e (((e.withD f).withD g).addErrs xs) :=
-  (Evolve.withD e f hf).trans ((Evolve.withD _ g hg).trans (Evolve.addErrs _ _))
-
-theorem stableD_triv {f : EData → EData}
-    (h : ∀ d, (f d).node = d.node ∧ (f d).nodeMod = d.nodeMod ∧ (f d).name = d.name ∧ (f d).kind = d.kind ∧
-      (f d).hasDir = d.hasDir ∧ (f d).errors = d.errors ∧ (f d).ns = d.ns ∧ (f d).nodeKw = d.nodeKw) : StableD f := h
+theorem Evolve.withD2_addErrs {io : Bool} (e : Entry) (f g : EData → EData) (xs : List Err) (hf : StableD f) (hg : StableD g) :
+    Evolve io e (((e.withD f).withD g).addErrs xs) :=
+  (Evolve.withD io e f hf).trans ((Evolve.withD io _ g hg).trans (Evolve.addErrs _ _ _))
 
 /-- What `Evolve` keeps. -/
-theorem Evolve.keeps {a b : Entry} (h : Evolve a b) :
+theorem Evolve.keeps {io : Bool} {a b : Entry} (h : Evolve io a b) :
     b.d.node = a.d.node ∧ b.d.nodeMod = a.d.nodeMod ∧ b.d.name = a.d.name ∧ b.d.kind = a.d.kind ∧
     b.d.hasDir = a.d.hasDir ∧ b.d.ns = a.d.ns ∧ b.d.nodeKw = a.d.nodeKw ∧ ∃ xs, b.d.errors = a.d.errors ++ xs := by
   induction h with
-  | refl e => exact ⟨rfl, rfl, rfl, rfl, rfl, rfl, rfl, [], by simp⟩
+  | refl io e => exact ⟨rfl, rfl, rfl, rfl, rfl, rfl, rfl, [], by simp⟩
   | trans _ _ ih1 ih2 =>
     obtain ⟨a1, a2, a3, a4, a5, a6, a7, xs, a8⟩ := ih1
     obtain ⟨b1, b2, b3, b4, b5, b6, b7, ys, b8⟩ := ih2
     exact ⟨b1.trans a1, b2.trans a2, b3.trans a3, b4.trans a4, b5.trans a5, b6.trans a6, b7.trans a7,
       xs ++ ys, by rw [b8, a8, List.append_assoc]⟩
-  | withD e f hf =>
+  | withD io e f hf =>
     cases e with | mk d c i o =>
-    obtain ⟨h1, h2, h3, h4, h5, h6, h7, h8⟩ := hf d
+    obtain ⟨h1, h2, h3, h4, h5, h6, h7, h8, _⟩ := hf d
     exact ⟨h1, h2, h3, h4, h5, h7, h8, [], by simp [Entry.withD, Entry.d, h6]⟩
-  | addErrs e xs =>
+  | addErrs io e xs =>
     cases e with | mk d c i o =>
     exact ⟨rfl, rfl, rfl, rfl, rfl, rfl, rfl, xs, rfl⟩
-  | withDir e c =>
+  | withDir io e c =>
     cases e with | mk d c' i o =>
     exact ⟨rfl, rfl, rfl, rfl, rfl, rfl, rfl, [], by simp [Entry.withDir, Entry.d]⟩
   | setIO d c i o i' o' => exact ⟨rfl, rfl, rfl, rfl, rfl, rfl, rfl, [], by simp [Entry.d]⟩
 
-theorem Evolve.ownMono {a b : Entry} (h : Evolve a b) : OwnMono a b := by
+/-- Without the `input` / `output` steps the rpc flag and the rpc input and output stay. -/
+theorem Evolve.keepsRpc {io : Bool} {a b : Entry} (h : Evolve io a b) (hio : io = false) :
+    b.d.isRpc = a.d.isRpc ∧ b.inp = a.inp ∧ b.out = a.out := by
+  induction h with
+  | refl io e => exact ⟨rfl, rfl, rfl⟩
+  | trans _ _ ih1 ih2 =>
+    obtain ⟨a1, a2, a3⟩ := ih1 hio
+    obtain ⟨b1, b2, b3⟩ := ih2 hio
+    exact ⟨b1.trans a1, b2.trans a2, b3.trans a3⟩
+  | withD io e f hf => cases e with | mk d c i o => exact ⟨(hf d).2.2.2.2.2.2.2.2, rfl, rfl⟩
+  | addErrs io e xs => cases e with | mk d c i o => exact ⟨rfl, rfl, rfl⟩
+  | withDir io e c => cases e with | mk d c' i o => exact ⟨rfl, rfl, rfl⟩
+  | setIO d c i o i' o' => cases hio
+
+theorem Evolve.ownMono {io : Bool} {a b : Entry} (h : Evolve io a b) : OwnMono a b := by
   obtain ⟨_, _, _, _, _, _, _, xs, hx⟩ := h.keeps
   intro ha hb
   rw [hx] at hb
   exact ha (List.append_eq_nil_iff.mp hb).1
 
-theorem evolve_stepFn (env : Env) (rec : Rec) (root : Mod) (n : Stmt) (sub : List Stmt) (visiting : List NodeId)
-    (isMod : Bool) (acc : Entry × TState) (f : String) :
-    Evolve acc.1 (stepFn env rec root n sub visiting isMod acc f).1 := by
+theorem evolve_stepFn (io : Bool) (env : Env) (rec : Rec) (root : Mod) (n : Stmt) (sub : List Stmt) (visiting : List NodeId)
+    (isMod : Bool) (acc : Entry × TState) (f : String) (hio : io = false → f ≠ "input" ∧ f ≠ "output") :
+    Evolve io acc.1 (stepFn env rec root n sub visiting isMod acc f).1 := by
   obtain ⟨e, st⟩ := acc
   unfold stepFn
   dsimp only
   split
   all_goals try dsimp only
   all_goals first
-    | exact Evolve.refl _
-    | exact Evolve.withD_addErrs _ _ _ (fun d => ⟨rfl, rfl, rfl, rfl, rfl, rfl, rfl, rfl⟩)
+    | exact Evolve.refl _ _
+    | exact Evolve.withD_addErrs _ _ _ (fun d => ⟨rfl, rfl, rfl, rfl, rfl, rfl, rfl, rfl, rfl⟩)
     | (unfold addAllFn; refine Evolve.foldl _ _ (e, st) ?_; intro acc a; exact Evolve.add _ _ _)
     | (refine Evolve.foldl _ _ (e, st) ?_; intro acc a; try dsimp only
        first
@@ -176,24 +188,74 @@ theorem evolve_stepFn (env : Env) (rec : Rec) (root : Mod) (n : Stmt) (sub : Lis
          | (repeat' split
             all_goals try dsimp only
             all_goals first
-              | exact Evolve.refl _
+              | exact Evolve.refl _ _
               | exact Evolve.addErr _ _
               | exact Evolve.merge _ _ _))
-    | (repeat' split
-       all_goals try dsimp only
-       all_goals first
-         | exact Evolve.refl _
-         | exact Evolve.addErr _ _
-         | exact Evolve.withD _ _ (fun d => ⟨rfl, rfl, rfl, rfl, rfl, rfl, rfl, rfl⟩)
-         | exact Evolve.withD2_addErrs _ _ _ _ (fun d => ⟨rfl, rfl, rfl, rfl, rfl, rfl, rfl, rfl⟩)
-             (fun d => ⟨rfl, rfl, rfl, rfl, rfl, rfl, rfl, rfl⟩)
-         | exact Evolve.setIO _ _ _ _ _ _)
+    | skip
+  case h_18 =>
+    cases io with
+    | false => exact absurd rfl (hio rfl).1
+    | true =>
+      repeat' split
+      all_goals try dsimp only
+      all_goals first
+        | exact Evolve.refl _ _
+        | exact Evolve.setIO _ _ _ _ _ _
+  case h_19 =>
+    cases io with
+    | false => exact absurd rfl (hio rfl).2
+    | true =>
+      repeat' split
+      all_goals try dsimp only
+      all_goals first
+        | exact Evolve.refl _ _
+        | exact Evolve.setIO _ _ _ _ _ _
+  all_goals
+    (repeat' split
+     all_goals try dsimp only
+     all_goals first
+       | exact Evolve.refl _ _
+       | exact Evolve.addErr _ _
+       | exact Evolve.withD _ _ _ (fun d => ⟨rfl, rfl, rfl, rfl, rfl, rfl, rfl, rfl, rfl⟩)
+       | exact Evolve.withD2_addErrs _ _ _ _ (fun d => ⟨rfl, rfl, rfl, rfl, rfl, rfl, rfl, rfl, rfl⟩)
+           (fun d => ⟨rfl, rfl, rfl, rfl, rfl, rfl, rfl, rfl, rfl⟩))
 
 theorem evolve_fold_steps (env : Env) (rec : Rec) (root : Mod) (n : Stmt) (sub : List Stmt) (visiting : List NodeId)
     (isMod : Bool) (l : List String) (acc : Entry × TState) :
-    Evolve acc.1 (l.foldl (stepFn env rec root n sub visiting isMod) acc).1 :=
-  Evolve.foldl _ _ _ (fun acc f => evolve_stepFn env rec root n sub visiting isMod acc f)
+    Evolve true acc.1 (l.foldl (stepFn env rec root n sub visiting isMod) acc).1 :=
+  Evolve.foldl _ _ _ (fun acc f => evolve_stepFn true env rec root n sub visiting isMod acc f (fun h => by cases h))
 
+/-- The fields of an rpc / action statement. -/
+def ioList : List String := ["output", "input", "grouping", "description"]
+
+/-- The four steps of an rpc / action leave the `Dir` children alone. -/
+theorem stepFn_io_dir (env : Env) (rec : Rec) (root : Mod) (n : Stmt) (sub : List Stmt) (visiting : List NodeId)
+    (isMod : Bool) (acc : Entry × TState) (f : String) (hf : f ∈ ioList) :
+    (stepFn env rec root n sub visiting isMod acc f).1.dir = acc.1.dir := by
+  obtain ⟨e, st⟩ := acc
+  simp only [ioList, List.mem_cons, List.not_mem_nil, or_false] at hf
+  rcases hf with rfl | rfl | rfl | rfl
+  · unfold stepFn
+    dsimp only
+    split
+    · rfl
+    · cases e; rfl
+  · unfold stepFn
+    dsimp only
+    split
+    · rfl
+    · cases e; rfl
+  · unfold stepFn
+    dsimp only
+    refine foldl_inv (fun a : Entry × TState => a.1.dir = e.dir) _ _ _ rfl ?_
+    intro b g _ hb
+    dsimp only
+    rw [← hb]
+    generalize (rec root sub g visiting b.2).1 = ge
+    cases b.1; rfl
+  · unfold stepFn
+    dsimp only
+    split <;> (cases e; rfl)
 
 /-! ### the source statement of the entry made from a statement -/
 
